@@ -298,3 +298,19 @@ PROPS["C14"] = dict(
     assumptions=["names are non-empty strings; distinct declared names are pairwise different (aliasing cases are separate cases)"],
     rule="bounded: random histories; distinct = distinct operation sequences",
 )
+
+PROPS["C01"]["explanation"] += (' Also under contract: source_head_param (tank: current head; reservoir: head pattern at simulation time + pattern start) and create_hydraulic_model (which definitions the model consists of per demand model; parameters and variables before constraints; unsupported features refused).')
+
+PROPS["C02"]["explanation"] += (' Also under contract: Pipe / Pump / Valve.status as the full table of (user status, internal status) per link class; create_hydraulic_model (one head-loss law per supported link type); ModelUpdater / update_model_for_controls (a changed status rebuilds exactly the rows registered for it); the internal-graph contracts of C09 (which links are modelled as isolated).')
+
+PROPS["C04"]["explanation"] += ("  The model's clock views (_shifted_time, _prev_shifted_time with the -1 sentinel before the first solve, _clock_time, _clock_day) are under contract; the time-step contract and the run_sim invariant also state that no rule instant is skipped (the next rule instant is the first one after the last accepted time).")
+
+PROPS["C05"]["explanation"] += (" _get_control_managers (which checker holds which controls; the user's controls are registered before the simulator's own), the status tables of every link class, ModelUpdater.add / update, Definition.update and update_model_for_controls are under contract.")
+
+PROPS["C11"]["explanation"] += (" The frame lemma also covers everything reached from the model object or its options in both simulators and the INP writer (only the clock may be assigned); get_head_curve_coefficients leaves the curve's points in the order entered. The bounded stand-in adds option corners, a pump curve entered high-flow point first, a rule registered under another key, and a definition change between two runs compared with a reloaded equal model.")
+
+PROPS["C13"]["explanation"] += (' from_dict is also executed for a junction with several demand entries (each restored with its own base value, pattern and category, in order) and for curves / patterns (points and multipliers in the order given); every keyword of every options constructor is checked exhaustively (bounded).')
+
+PROPS["C14"]["explanation"] += (' Every valve class is enumerated in the LinkRegistry contracts; NodeRegistry.__delitem__ also for junctions whose demand entries share a pattern; a refused curve removal leaves the typed curve sets alone; AndCondition / OrCondition / ControlBase.requires (what remove_* consults) return the union over operands and actions.')
+
+PROPS["C20"]["explanation"] += (' average_expected_demand is under contract (one common period of all patterns and of a day, sampled once per pattern step from the pattern start); the bounded metrics include interpolated patterns off the pattern grid, a report step coarser than the hydraulic step, a reservoir being filled and a volume-curve tank.')
